@@ -78,7 +78,8 @@ def is_known(pid, ob, known):
 
 
 def write_evidence(pid, tier, level, cx, wall, violations, db_info, mod, extra=None):
-    os.makedirs(os.path.join(VERIF, "evidence"), exist_ok=True)
+    evdir = os.environ.get("VERIF_EVIDENCE_DIR", os.path.join(VERIF, "evidence"))
+    os.makedirs(evdir, exist_ok=True)
     nob = len(cx.obs)
     nok = sum(1 for o in cx.obs if o["ok"])
     rules = sorted(set(o["rule"] for o in cx.obs))
@@ -118,7 +119,7 @@ def write_evidence(pid, tier, level, cx, wall, violations, db_info, mod, extra=N
         "wall_s": round(wall, 3),
         "violations": violations,
     }
-    p = os.path.join(VERIF, "evidence", pid + ".json")
+    p = os.path.join(evdir, pid + ".json")
     with open(p + ".tmp", "w") as f:
         json.dump(ev, f, indent=1)
     os.replace(p + ".tmp", p)
@@ -185,7 +186,7 @@ def main(argv):
                                                              o["instance"]))
         else:
             new.append(o)
-    outdir = os.path.join(VERIF, "out", pid)
+    outdir = os.path.join(os.environ.get("VERIF_OUT_DIR", os.path.join(VERIF, "out")), pid)
     os.makedirs(outdir, exist_ok=True)
     rc = 0
     for n, o in enumerate(new):
